@@ -222,29 +222,23 @@ Definition vs_roll (ped : bool) : M unit :=
   vdo a <- vs_pop ped ;; vdo b <- vs_pop ped ;; vdo c <- vs_pop ped ;;
   vdo _ <- vs_push b ;; vdo _ <- vs_push a ;; vs_push c.
 
-(* ValueStack::copy_index *)
-Definition vs_copy_index : M unit := fun s =>
-  match checked_sub (vlen s) 1 with                            (* top_ix *)
-  | None => Some (s, Err EUnderflow)
-  | Some top_ix =>
-      match zget (vals s) top_ix with
-      | None => Some (s, Err EUnderflow)
-      | Some v =>
-          let index := wrap_u 64 v in                           (* as usize *)
-          match checked_sub top_ix index with                   (* element_ix *)
-          | None => Some (s, Err EUnderflow)
-          | Some element_ix =>
-              match zget (vals s) element_ix with               (* self.values[element_ix] *)
-              | None => None
-              | Some e =>
-                  match zset (vals s) top_ix e with             (* self.values[top_ix] = .. *)
-                  | None => None
-                  | Some vs' => Some (mkVS vs' (vlen s), Ok tt)
-                  end
-              end
+(* ValueStack::copy_index (/repo 5407d30: FreeType Ins_CINDEX semantics).  In the range test `index as usize`
+   is evaluated only when index > 0, where it equals index for every i32, so it is written [index]. *)
+Definition vs_copy_index (ped : bool) : M unit :=
+  vdo index <- vs_pop ped ;;                                    (* let index = self.pop()?; *)
+  fun s =>
+    if (index <=? 0) || (vlen s <? index) then                  (* index <= 0 || index as usize > self.len *)
+      if ped then Some (s, Err (EInvalidStackValue index))      (* return Err(InvalidStackValue(index)) *)
+      else vs_push 0 s                                          (* return self.push(0) *)
+    else
+      match sub_usize (vlen s) index with                       (* self.len - index as usize *)
+      | None => None
+      | Some element_ix =>
+          match zget (vals s) element_ix with                   (* self.values[..] *)
+          | None => None
+          | Some e => vs_push e s                               (* self.push(..) *)
           end
-      end
-  end.
+      end.
 
 (* slice.copy_within(src_lo..src_hi, dest): panics unless src_lo <= src_hi <= len and
    dest + (src_hi - src_lo) <= len; memmove semantics *)
@@ -255,45 +249,38 @@ Definition copy_within (l : list Z) (src_lo src_hi dest : Z) : option (list Z) :
     let chunk := firstn (Z.to_nat (src_hi - src_lo)) (skipn (Z.to_nat src_lo) l) in
     Some (firstn (Z.to_nat dest) l ++ chunk ++ skipn (Z.to_nat (dest + (src_hi - src_lo))) l).
 
-(* ValueStack::move_index *)
-Definition vs_move_index : M unit := fun s =>
-  match checked_sub (vlen s) 1 with                            (* top_ix *)
-  | None => Some (s, Err EUnderflow)
-  | Some top_ix =>
-      match zget (vals s) top_ix with
-      | None => Some (s, Err EUnderflow)
-      | Some v =>
-          let index := wrap_u 64 v in
-          match checked_sub top_ix index with                   (* element_ix *)
-          | None => Some (s, Err EUnderflow)
-          | Some element_ix =>
-              match checked_sub top_ix 1 with                   (* new_top_ix *)
-              | None => Some (s, Err EUnderflow)
-              | Some new_top_ix =>
-                  match zget (vals s) element_ix with           (* let value = self.values[element_ix] *)
+(* ValueStack::move_index (/repo 5407d30: FreeType Ins_MINDEX semantics) *)
+Definition vs_move_index (ped : bool) : M unit :=
+  vdo index <- vs_pop ped ;;                                    (* let index = self.pop()?; *)
+  fun s =>
+    if (index <=? 0) || (vlen s <? index) then
+      if ped then Some (s, Err (EInvalidStackValue index))
+      else Some (s, Ok tt)                                      (* return Ok(()) *)
+    else
+      match sub_usize (vlen s) index with                       (* element_ix = self.len - index as usize *)
+      | None => None
+      | Some element_ix =>
+          match zget (vals s) element_ix with                   (* let value = self.values[element_ix] *)
+          | None => None
+          | Some value =>
+              match add_usize element_ix 1 with                 (* element_ix + 1 *)
+              | None => None
+              | Some lo =>
+                  match copy_within (vals s) lo (vlen s) element_ix with
                   | None => None
-                  | Some value =>
-                      match add_usize element_ix 1 with         (* element_ix + 1 *)
+                  | Some vs1 =>
+                      match sub_usize (vlen s) 1 with           (* self.len - 1 *)
                       | None => None
-                      | Some lo =>
-                          match copy_within (vals s) lo (vlen s) element_ix with
+                      | Some t =>
+                          match zset vs1 t value with           (* self.values[self.len - 1] = value *)
                           | None => None
-                          | Some vs1 =>
-                              match zset vs1 new_top_ix value with      (* self.values[new_top_ix] = value *)
-                              | None => None
-                              | Some vs2 =>
-                                  match sub_usize (vlen s) 1 with       (* self.len -= 1 *)
-                                  | None => None
-                                  | Some n => Some (mkVS vs2 n, Ok tt)
-                                  end
-                              end
+                          | Some vs2 => Some (mkVS vs2 (vlen s), Ok tt)
                           end
                       end
                   end
               end
           end
-      end
-  end.
+      end.
 
 (* one operation of the public surface; closures are part of the operation *)
 Inductive vop :=
@@ -341,8 +328,8 @@ Definition vs_step (ped : bool) (o : vop) (s : vstack) : option (vstack * (Z * Z
   | OClear => option_map (obs_of unit0) (vs_clear s)
   | ODup => option_map (obs_of unit0) (vs_dup ped s)
   | OSwap => option_map (obs_of unit0) (vs_swap ped s)
-  | OCopyIndex => option_map (obs_of unit0) (vs_copy_index s)
-  | OMoveIndex => option_map (obs_of unit0) (vs_move_index s)
+  | OCopyIndex => option_map (obs_of unit0) (vs_copy_index ped s)
+  | OMoveIndex => option_map (obs_of unit0) (vs_move_index ped s)
   | ORoll => option_map (obs_of unit0) (vs_roll ped s)
   end.
 
